@@ -317,10 +317,13 @@ Definition observe (cs : list chan) (ss : list cst) (broken : bool) (i : nat) : 
              | None => None
              end
       end in
-    let closure (k : nat) : N :=
+    let closure (k : nat) (crossing : bool) : N :=
       match s_tx (nth_st ss k) with
       | LDropped => ST_END
-      | _ => ST_ERR
+      | _ =>
+          (* bin (repaired interlock): the forwarding task gives up silently when the other transfer
+             failed, and its end of the connection is dropped: clean end *)
+          if (c_ck (nth_chan cs k) =? 4) && crossing then ST_END else ST_ERR
       end in
     let tx_status : N :=
       match s_tx s with
@@ -348,7 +351,7 @@ Definition observe (cs : list chan) (ss : list cst) (broken : bool) (i : nat) : 
                 let lab := if broken && crossing then None else feeder k in
                 let its := pre ++ match lab with Some x => [x] | None => [] end in
                 if Nat.leb want (length its) then (firstn want its, ST_OK)
-                else (its, if broken && crossing then ST_ERR else closure k)
+                else (its, if broken && crossing then ST_ERR else closure k crossing)
             | None => ([], ST_ERR)
             end
       end in
